@@ -1,4 +1,5 @@
 import DclabModel.Lemmas.Check
+import DclabModel.Lemmas.CheckLevels
 /-!
 # C13 — The integrity checker accepts dclab's own output and flags real inconsistencies
 
@@ -19,7 +20,15 @@ import DclabModel.Lemmas.Check
 * copies: `same_violations_after_copy_partial` (guards: no unknown feature — F23 —, no external
   link), `unknown_feature_copy_witness`, `compress_violations`, `compress_same_violations_partial`;
 * F13: `index_length_mismatch_is_cue` with `old_index_check_raised_witness`;
-* `exit_code_table`.
+* `exit_code_table`;
+* session 4 — size independence: `index_check_exact`, `index_cue_exact`, `feature_size_cue_exact`,
+  `skipped_event_number_detected`, `tolerant_index_check_misses_late_skip` (variant witness, all
+  positions ≥ 100000), `zero_event_count_detected`, `lenient_length_hides_zero_count_witness`;
+  cue levels: `violation_missing_key_mandatory`, `alert_missing_key_not_mandatory`,
+  `missing_key_levels_exclusive`, `mandatory_missing_never_alert`, `empty_dataset_alert`,
+  `exit_status_reports_violations`; writer closure of copies and exports:
+  `copy_violations_subset`, `copy_output_clean`, `export_output_clean`,
+  `export_partial_channels_witness` (F30).
 -/
 namespace DclabModel.C13
 open DclabModel.Check DclabModel.Gen.CheckTable
@@ -373,5 +382,178 @@ theorem exit_code_spec (a v : Nat) :
     (exitCode a v = 2 ↔ a = 0 ∧ v ≠ 0) ∧ (exitCode a v = 3 ↔ a ≠ 0 ∧ v ≠ 0) := by
   unfold exitCode
   by_cases ha : a = 0 <;> by_cases hv : v = 0 <;> simp [ha, hv]
+
+/-! ## 5. size independence of the array-comparing cues -/
+
+/-- the comparison `check_feat_index` performs (same shape, then every element equal) holds
+    exactly for the enumeration `1 … n` — for every `n`, no tolerance -/
+theorem index_check_exact (xs : List Nat) (n : Nat) :
+    indexOk xs n = true ↔ xs = List.range' 1 n := indexOk_iff xs n
+
+/-- the index cue is reported **iff** the stored index is not `1 … len(ds)`; no other check
+    emits it -/
+theorem index_cue_exact (d : D) :
+    Cue.indexNotEnumerated ∈ violations d ↔
+      ∃ xs, d.index = some xs ∧ xs ≠ List.range' 1 (lends (cfgGet d.cfg) d) := index_cue_iff d
+
+/-- the feature-size cue of `f` is reported **iff** a stored length of `f` differs from
+    `len(ds)` — by one or by many, for small and large measurements alike -/
+theorem feature_size_cue_exact (d : D) (f : String) :
+    Cue.featSize f ∈ violations d ↔ ∃ l, (f, l) ∈ d.events ∧ l ≠ lends (cfgGet d.cfg) d :=
+  featSize_cue_iff d f
+
+/-- one skipped event number anywhere in a measurement of any size is reported -/
+theorem skipped_event_number_detected (d : D) (p n : Nat) (hp : p < n)
+    (hi : d.index = some (skipIndex p n)) (hl : lends (cfgGet d.cfg) d = n) :
+    Cue.indexNotEnumerated ∈ violations d :=
+  detect_index d _ hi (by rw [hl]; exact skipIndex_ne p n hp)
+
+/-- variant witness (unbounded): a comparison with NumPy's default tolerances
+    (`np.allclose`, |a-b| ≤ 1e-8 + 1e-5·b) accepts **every** index with an event number skipped
+    at a position ≥ 100000, which the exact comparison rejects -/
+theorem tolerant_index_check_misses_late_skip (p n : Nat) (hp : 100000 ≤ p) (hn : p < n) :
+    indexOkTol (skipIndex p n) n = true ∧ indexOk (skipIndex p n) n = false := by
+  constructor
+  · simp only [indexOkTol, Bool.and_eq_true, beq_iff_eq]
+    refine ⟨skipIndex_length p n (by omega), ?_⟩
+    rw [skipIndex, enumFromTol_append, enumFromTol_range_self]
+    simp only [List.length_range', Bool.true_and]
+    have := enumFromTol_range_shift (n - p) (1 + p) (by omega)
+    rw [show 1 + p + 1 = p + 2 by omega] at this
+    exact this
+  · cases h : indexOk (skipIndex p n) n with
+    | false => rfl
+    | true => exact absurd ((indexOk_iff _ _).mp h) (skipIndex_ne p n hn)
+
+/-- non-vacuity / small sizes: below 100000 the tolerant variant still notices the skip -/
+example : indexOkTol (skipIndex 5 9) 9 = false ∧ indexOk (skipIndex 5 9) 9 = false ∧
+    indexOk (List.range' 1 9) 9 = true := by decide
+
+/-- metadata that announce 0 events while a feature holds rows: every such feature is flagged -/
+theorem zero_event_count_detected (d : D) (f : String) (l : Nat) (hf : (f, l) ∈ d.events)
+    (hl : l ≠ 0) (h0 : cfgGet d.cfg ("experiment", "event count") = some (natVal 0)) :
+    Cue.featSize f ∈ violations d := by
+  apply detect_feature_length d f l hf
+  rw [lends_of_some _ _ _ h0]
+  simpa [toNat, natVal] using hl
+
+/-- variant witness: taking an event count of 0 for "unknown" (falling back to the length of
+    the first non-empty feature) hides the inconsistency -/
+theorem lenient_length_hides_zero_count_witness :
+    let d : D := { cfg := [(("experiment", "event count"), natVal 0)], lenOrder := [7],
+                   events := [("deform", 7)] }
+    Cue.featSize "deform" ∈ violations d ∧ lendsLenient (cfgGet d.cfg) d = 7 := by decide
+
+/-! ## 6. cue levels -/
+
+/-- a key reported missing at violation level is a mandatory key of the regenerated tables -/
+theorem violation_missing_key_mandatory (d : D) (s k : String)
+    (h : Cue.missingKey s k ∈ violations d) :
+    (keysOf (important (hasFl d)) s).contains k = true := viol_missingKey_mandatory d s k h
+
+/-- a key reported missing at alert level (by `check_metadata_missing` or by
+    `check_fl_metadata_channel_names`, whose message has the same form) is not mandatory -/
+theorem alert_missing_key_not_mandatory (d : D) (s k : String)
+    (h : ACue.missingKey s k ∈ alerts d) :
+    (keysOf (important (hasFl d)) s).contains k = false := alert_missingKey_not_mandatory d s k h
+
+/-- every missing key is reported at exactly one level -/
+theorem missing_key_levels_exclusive (d : D) (s k : String)
+    (hv : Cue.missingKey s k ∈ violations d) : ACue.missingKey s k ∉ alerts d := by
+  intro ha
+  have h1 := viol_missingKey_mandatory d s k hv
+  rw [alert_missingKey_not_mandatory d s k ha] at h1
+  cases h1
+
+/-- **no mandatory key is ever downgraded**: for every key of the mandatory tables the alert
+    list never contains the missing-key cue (it is a violation — `detect_missing_key`) -/
+theorem mandatory_missing_never_alert (d : D) (sec : String) (ks : List String) (k : String)
+    (hs : (sec, ks) ∈ important (hasFl d)) (hk : k ∈ ks) : ACue.missingKey sec k ∉ alerts d := by
+  intro ha
+  have htab : tableOk (hasFl d) = true := by
+    cases hasFl d
+    · exact table_ok.2
+    · exact table_ok.1
+  simp only [tableOk, List.all_eq_true, Bool.and_eq_true, beq_iff_eq] at htab
+  obtain ⟨⟨_, hkeys⟩, _⟩ := htab (sec, ks) hs
+  have himp : (keysOf (important (hasFl d)) sec).contains k = true := by
+    rw [hkeys, List.contains_iff_mem]; exact hk
+  rw [alert_missingKey_not_mandatory d sec k ha] at himp
+  cases himp
+
+/-- a dataset whose length is 0 gets the alert "does not contain any events" -/
+theorem empty_dataset_alert (d : D) (h : lends (cfgGet d.cfg) d = 0) : ACue.empty ∈ alerts d := by
+  rw [mem_alerts]
+  exact Or.inr (Or.inl (by simp [aEmpty, h]))
+
+/-- the exit status of `dclab-verify-dataset` shows a violation iff there is one, whatever the
+    number of (modelled or further) alerts -/
+theorem exit_status_reports_violations (d : D) (extra : Nat) :
+    (exitOf d extra = 2 ∨ exitOf d extra = 3) ↔ violations d ≠ [] := by
+  rw [exitOf, exitCode_ge_two]
+  cases violations d <;> simp
+
+/-- non-vacuity: alert-level cues of a small fluorescence description (channel 2 named without
+    `fl2_max`, flow rates that do not add up, `temp` without `[setup] temperature`) -/
+example :
+    let d : D := { cfg := [(("experiment", "event count"), natVal 3),
+                     (("fluorescence", "channel 2 name"), none),
+                     (("setup", "flow rate"), some (4, 100)), (("setup", "flow rate sample"), some (1, 100)),
+                     (("setup", "flow rate sheath"), some (2, 100))],
+                   events := [("fl1_max", 3), ("temp", 3)] }
+    ACue.unusedKey "channel 2 name" ∈ alerts d ∧ ACue.missingKey "fluorescence" "channel 1 name" ∈ alerts d ∧
+    ACue.flowRates ∈ alerts d ∧ ACue.tempKey ∈ alerts d ∧ ACue.empty ∉ alerts d ∧
+    ACue.missingKey "setup" "flow rate" ∉ alerts d := by decide
+
+/-! ## 7. writer closure for copies and exports -/
+
+/-- `rtdc_copy` never adds a violation: every cue of the copy is a cue of the original … -/
+theorem copy_violations_subset (d : D) (c : Cue) (h : c ∈ violations (copyD d)) :
+    c ∈ violations d := by
+  rw [mem_violations] at h ⊢
+  rcases h with h | h | h | h | h | h | h | h | h | h | h
+  · exact Or.inl h
+  · simp [vExternal, copyD] at h
+  · exact Or.inr (Or.inr (Or.inl h))
+  · exact Or.inr (Or.inr (Or.inr (Or.inl h)))
+  · simp only [vUnknown, copyD, List.mem_map, List.mem_filter] at h
+    obtain ⟨fk, ⟨⟨_, hk⟩, hn⟩, _⟩ := h
+    simp [hk] at hn
+  · exact Or.inr (Or.inr (Or.inr (Or.inr (Or.inr (Or.inl h)))))
+  · exact Or.inr (Or.inr (Or.inr (Or.inr (Or.inr (Or.inr (Or.inl h))))))
+  · exact Or.inr (Or.inr (Or.inr (Or.inr (Or.inr (Or.inr (Or.inr (Or.inl h)))))))
+  · exact Or.inr (Or.inr (Or.inr (Or.inr (Or.inr (Or.inr (Or.inr (Or.inr (Or.inl h))))))))
+  · exact Or.inr (Or.inr (Or.inr (Or.inr (Or.inr (Or.inr (Or.inr (Or.inr (Or.inr (Or.inl h)))))))))
+  · exact Or.inr (Or.inr (Or.inr (Or.inr (Or.inr (Or.inr (Or.inr (Or.inr (Or.inr (Or.inr h)))))))))
+
+/-- … so **the copy of any violation-free file is violation-free** (no guard) -/
+theorem copy_output_clean (d : D) (h : violations d = []) : violations (copyD d) = [] := by
+  cases hv : violations (copyD d) with
+  | nil => rfl
+  | cons c cs =>
+    have := copy_violations_subset d c (by rw [hv]; simp)
+    rw [h] at this
+    cases this
+
+/-- **export closure**: `export.hdf5` of `m` selected events and any feature subset of a
+    consistent file (complete metadata) is violation-free; only guard: the stored fluorescence
+    channels are kept or dropped together (F30, see the witness below) -/
+theorem export_output_clean (d : D) (keep : String → Bool) (m : Nat) (g : Guarantees d)
+    (hfl : hasFl (subsetD d keep) = true →
+      ∀ ce, ce ∈ chanKeys → hasEvent d ce.2 = true → keep ce.2 = true) :
+    violations (exportD d keep m) = [] :=
+  clean_of_guarantees _ (resize_guarantees _ m (subset_guarantees d keep g hfl))
+
+/-- exporting the writer's own output again (all features, any selection size) is clean -/
+theorem export_of_writer_output_clean (w : Written) (hm : CompleteMeta w) (m : Nat) :
+    violations (exportD (writerD w) (fun _ => true) m) = [] :=
+  export_output_clean _ _ m (writer_guarantees w hm) (fun _ _ _ _ => rfl)
+
+/-- F30 (open) is the exact exception: keeping one of two stored channels leaves only the
+    channel-count violation; keeping both, or none, is clean -/
+theorem export_partial_channels_witness :
+    violations (exportD (writerD wTwoChannels) (fun f => f != "fl2_max") 3) = [Cue.channelCount] ∧
+    violations (exportD (writerD wTwoChannels) (fun _ => true) 3) = [] ∧
+    violations (exportD (writerD wTwoChannels) (fun f => f == "deform") 0) = [] := by decide
 
 end DclabModel.C13
